@@ -201,7 +201,9 @@ fn proc_stat(ktid: u64) -> Option<(char, u64)> {
 /// notify - made progress), and at least one thread was asleep in the kernel the whole time, gained
 /// no CPU time and last passed the site right before `Condvar::wait` of the blocking strategy.
 /// Threads that spin in a harness loop waiting for the sleeper do not change the verdict: they do
-/// not touch the queue. Returns what the threads were doing.
+/// not touch the queue. Second form: every remaining thread last passed a site at the entry of
+/// `Wait::wait` (whatever the strategy; a spinning or yielding waiter passes no site) - then nobody is
+/// left who could send, drop or notify. Returns what the threads were doing.
 pub fn asleep_and_nobody_moves(skip: u32, samples: u32) -> Option<String> {
     if cfg!(miri) {
         return None;
@@ -238,6 +240,19 @@ pub fn asleep_and_nobody_moves(skip: u32, samples: u32) -> Option<String> {
                 }
             }
         }
+    }
+    // (B) every remaining thread is inside Wait::wait (asleep, yielding or spinning - it does not
+    // matter): nobody is left who could send, drop or notify
+    let wait_sites = [site::B_BEFORE_WAIT, site::BW_BEFORE_LOCK, site::BW_CHECKED_FALSE, site::BW_WOKEN];
+    let all_waiting = threads.iter().all(|t| wait_sites.contains(&T_LAST[t.0].load(Relaxed)));
+    if all_waiting {
+        return Some(
+            threads
+                .iter()
+                .map(|t| format!("T{} inside Wait::wait after site {}", t.0, site_name(T_LAST[t.0].load(Relaxed))))
+                .collect::<Vec<_>>()
+                .join(", "),
+        );
     }
     if !sleeper.iter().any(|x| *x) {
         if debug {
